@@ -25,6 +25,27 @@ def run_c17(R, tier, rng):
     from npstructures import RaggedArray, RunLengthRaggedArray, RunLength2dArray, RunLengthArray
     C = Ctx(R, "rl2d")
     n_obj = 900 if tier == "thorough" else 220
+    # float column sums with values whose differences are not representable (F38): numpy's own column sums of the dense rows, bit for bit
+    FV = [0.1, 0.2, 1e16, -1e16, 0.5, 1.0, 0.3, 0.7]
+    frows_list = [[[1e16, 1.0]], [[1e16, 1.0], [1.0, 1.0]], [[0.1, 0.2, 0.3], [0.7, 0.7, 0.1]], [[0.1] * 3 + [0.3] * 2, [1e16], [0.2, 0.2, 0.2, 0.2, 0.2, 0.7]]]
+    for _ in range(60 if tier == "thorough" else 20):
+        fr = []
+        for _r in range(rng.randint(1, 4)):
+            r = []; ln = rng.randint(1, 6)
+            while len(r) < ln: r += [rng.choice(FV)] * rng.randint(1, 3)
+            fr.append(r[:ln])
+        frows_list.append(fr)
+    for fr in frows_list:
+        for fdt in ("float64", "float32"):
+            mcol = max(len(r) for r in fr)
+            want = [np.array([r[j] for r in fr if len(r) > j], dtype=fdt).sum() for j in range(mcol)]
+            C.cmp(f"sum(axis=0) inexact floats {fdt} {fr!r}", "col-sum/inexact-floats", True,
+                  lambda: (lambda x: [kl(x), str(x.dtype)])(np.asarray(RunLengthRaggedArray.from_ragged_array(RaggedArray(fr, dtype=fdt)).sum(axis=0).to_array())),
+                  lambda: [kl(np.array(want, dtype=fdt)), fdt], py=f"RunLengthRaggedArray.from_ragged_array(RaggedArray({fr!r}, dtype='{fdt}')).sum(axis=0).to_array()")
+            wmin = min(len(r) for r in fr); M = np.array([r[:wmin] for r in fr], dtype=fdt)
+            C.cmp(f"matrix sum(axis=0) inexact floats {fdt} {M.tolist()!r}", "matrix/col-sum/inexact-floats", True,
+                  lambda: (lambda x: [kl(x), str(x.dtype)])(np.asarray(RunLength2dArray.from_array(M).sum(axis=0).to_array())),
+                  lambda: [kl(M.sum(axis=0)), fdt], py=f"RunLength2dArray.from_array(np.array({M.tolist()!r}, dtype='{fdt}')).sum(axis=0).to_array()")
     for t in range(n_obj):
         dt = DT[t % len(DT)]
         al = AL[dt]
